@@ -1,4 +1,220 @@
-import MementoModel.Model.RunnerProg
+import MementoModel.Lemmas.RunnerReent
+import MementoModel.Lemmas.RunnerProgLemmas
+
+/-!
+# C02 — memoization is transparent: same outcome, body runs once per distinct call
+
+On `Model/Runner.lean`, for **all** programs (arbitrary interaction trees), stores and histories.
+Exceptions compare up to `replay` (an exception that cannot be rebuilt from its message is replayed
+as the framework's memoized-exception type).
+Calls under `with_prevent_further_calls` are C16's (their RuntimeError is recorded under the
+ordinary key, so they are excluded here by `NoPrevent` / `fl.prevent = false`).
+-/
 namespace Memento.Runner
-theorem placeholder_C02 : replay (.val none) = .val none := rfl
+
+/-- replay keeps the class when it can be rebuilt from the message, otherwise gives the memoized-exception type;
+    the original message is preserved -/
+theorem replay_class (c m : Nat) :
+    replay (.exc c m) = .exc (if c = clsOpaque then clsMemento else c) m ∧
+    (∀ v, replay (.val v) = .val v) ∧ replay (replay (.exc c m)) = replay (.exc c m) :=
+  ⟨rfl, fun _ => rfl, replay_replay _⟩
+
+/-- more fuel never changes a result -/
+theorem run_mono (P : Prog) (n : Nat) (s : St) (c : Option Frame) (fn : Fn) (args : List Val) (ctx : CtxSpec) (fl : Flags)
+    (r : BatchResult) (h : run P n s c fn args ctx fl = some r) : run P (n + 1) s c fn args ctx fl = some r :=
+  run_mono_succ P n h
+
+/-- **transparency**: from any sound store, a memoized call returns what the un-memoized execution of the
+    same program returns (value, or exception up to `replay`), and leaves a sound store -/
+theorem run_transparent (P : Prog) (hw : WellBehaved P) (hp : NoPrevent P) (n : Nat) (s s' : St) (fn : Fn) (arg : Val)
+    (ctx : CtxSpec) (fl : Flags) (hfl : fl.prevent = false) (o : Outcome) (hs : Sound P s)
+    (h : callTop P n s fn arg ctx fl = some (s', o)) :
+    (∃ m o', pureCall P m fn arg ctx fl = some o' ∧ Outcome.sim o o') ∧ Sound P s' := by
+  unfold callTop at h
+  split at h
+  · rename_i s1 o1 recs hrun
+    cases h
+    obtain ⟨hs', m, sd', res', recs', e, hres, _⟩ := sim_top hw hp hs hfl hrun
+    obtain ⟨o', rfl, ho⟩ := hres.ok_single_inv
+    refine ⟨⟨m, o', ?_, ho⟩, hs'⟩
+    unfold pureCall callTop
+    rw [show ({ store := [], trace := [], enabled := false } : St) = emp from rfl, e]
+    rfl
+  · rename_i s1 e1 recs hrun
+    cases h
+    obtain ⟨hs', m, sd', res', recs', e, hres, _⟩ := sim_top hw hp hs hfl hrun
+    obtain ⟨o', rfl, ho⟩ := hres.error_inv
+    refine ⟨⟨m, o', ?_, ho⟩, hs'⟩
+    unfold pureCall callTop
+    rw [show ({ store := [], trace := [], enabled := false } : St) = emp from rfl, e]
+    rfl
+  · cases h
+
+/-- a memoized call does not run any body and does not change the store -/
+theorem memoized_call_executes_nothing (P : Prog) (n : Nat) (s : St) (fn : Fn) (arg : Val) (c : Ctx) (fl : Flags) (r : Rec)
+    (hr : s.get ⟨fn, arg, c⟩ = some r) :
+    callTop P (n + 1) s fn arg (.set c) fl = some (s, serve r fl) := by
+  rw [callTop_succ]
+  show (match s.get ⟨fn, arg, c⟩ with | some r => some (s, serve r fl) | none => _) = _
+  rw [hr]
+
+/-- the call `k` is not re-entrant in the execution from `s` to `s'`: its body was not entered a second
+    time while it was running (a re-entrant call of a key that is not yet stored is an unbounded recursion
+    in every ordinary program; it can terminate only through tricks such as the inner call being made
+    under `with_prevent_further_calls` — see the counterexamples below) -/
+def NotReentrant (s s' : St) (k : Key) : Prop := ∀ rest, s'.trace = s.trace ++ (k :: rest) → k ∉ rest
+
+private theorem deliver_nonMemo {fl : Flags} {ob : Outcome} {m : Nat} (h : deliver fl ob = .exc clsNonMemoized m) :
+    ob = .exc clsNonMemoized m := by
+  cases ob with
+  | exc c m' => exact h
+  | val v => simp only [deliver] at h; split at h <;> cases h
+
+/-- exceptions marked as not-to-be-memoized are never recorded; every other outcome of a computed call is.
+
+    STATEMENT ADJUSTED. Original:
+    `((∃ m, o = .exc clsNonMemoized m) → s'.get ⟨fn, arg, c⟩ = none) ∧`
+    `((∀ m, o ≠ .exc clsNonMemoized m) → (∀ m, o ≠ .exc clsUndeclared m ∨ True) → (s'.get ⟨fn, arg, c⟩).isSome)`.
+    (1) the vacuous hypothesis `∀ m, o ≠ .exc clsUndeclared m ∨ True` was dropped;
+    (2) the first half needs `NotReentrant s s' k`: if the body re-enters its own key `k` (inner call),
+        the inner execution may return normally and be recorded although the outer one raises the
+        not-to-be-memoized exception — counterexample `reentrantP` below (the inner call is made with
+        `with_prevent_further_calls(True)`, so *its* nested call fails and it takes the other branch). -/
+theorem recorded_iff_memoizable (P : Prog) (n : Nat) (s s' : St) (fn : Fn) (arg : Val) (c : Ctx) (fl : Flags) (o : Outcome)
+    (he : s.enabled = true) (hn : s.get ⟨fn, arg, c⟩ = none)
+    (h : callTop P n s fn arg (.set c) fl = some (s', o)) :
+    ((∃ m, o = .exc clsNonMemoized m) → NotReentrant s s' ⟨fn, arg, c⟩ → s'.get ⟨fn, arg, c⟩ = none) ∧
+    ((∀ m, o ≠ .exc clsNonMemoized m) → (s'.get ⟨fn, arg, c⟩).isSome) := by
+  obtain ⟨s1, ob, fr1, rest, ho, hs, ht, hen, hf⟩ := callTop_miss_spec (ctx := .set c) hn h
+  change s' = storeAfter s1 ⟨fn, arg, c⟩ ob (mkRec ⟨fn, arg, c⟩ ob fr1) at hs
+  change s'.trace = s.trace ++ (⟨fn, arg, c⟩ :: rest) at ht
+  constructor
+  · rintro ⟨m, hm⟩ hre
+    have hob := deliver_nonMemo (ho.symm.trans hm)
+    have : storeAfter s1 ⟨fn, arg, c⟩ ob (mkRec ⟨fn, arg, c⟩ ob fr1) = s1 := by
+      simp [storeAfter, hob, isNonMemo]
+    rw [hs, this, hf _ (hre rest ht)]; exact hn
+  · intro hm
+    have hnm : isNonMemo ob = false := by
+      cases ob with
+      | val v => rfl
+      | exc c' m' =>
+        simp only [isNonMemo, beq_eq_false_iff_ne]
+        intro hc
+        exact hm m' (by rw [ho, hc]; rfl)
+    rw [hs]
+    unfold storeAfter
+    rw [hnm]
+    cases hg : s1.get ⟨fn, arg, c⟩ with
+    | some r0 => simp [hg]
+    | none => simp [St.get_put_self (hen.trans he)]
+
+/-- "the first call runs the body exactly once and every later call … without running the body again":
+    an immediately repeated call executes nothing and returns the replayed outcome.
+
+    STATEMENT ADJUSTED: needs `NotReentrant s s' k` (see `recorded_iff_memoizable`): if the body re-enters its
+    own key, the store keeps the record of the *inner* execution, whose outcome may differ from what the outer
+    execution returned — counterexample `reentrantP'` below. -/
+theorem repeat_executes_nothing (P : Prog) (n : Nat) (s s' : St) (fn : Fn) (arg : Val) (c : Ctx) (o : Outcome)
+    (he : s.enabled = true) (h : callTop P n s fn arg (.set c) {} = some (s', o)) (hm : ∀ m, o ≠ .exc clsNonMemoized m)
+    (hre : NotReentrant s s' ⟨fn, arg, c⟩) :
+    ∃ o2, callTop P (n + 1) s' fn arg (.set c) {} = some (s', o2) ∧ Outcome.sim o2 o := by
+  cases hn : s.get ⟨fn, arg, c⟩ with
+  | some r =>
+    cases n with
+    | zero => rw [callTop_zero] at h; cases h
+    | succ n' =>
+      rw [memoized_call_executes_nothing P n' s fn arg c {} r hn] at h
+      cases h
+      exact ⟨_, memoized_call_executes_nothing P _ s fn arg c {} r hn, rfl⟩
+  | none =>
+    obtain ⟨s1, ob, fr1, rest, ho, hs, ht, hen, hf⟩ := callTop_miss_spec (ctx := .set c) hn h
+    change s' = storeAfter s1 ⟨fn, arg, c⟩ ob (mkRec ⟨fn, arg, c⟩ ob fr1) at hs
+    change s'.trace = s.trace ++ (⟨fn, arg, c⟩ :: rest) at ht
+    have ho' : o = ob := by rw [ho]; cases ob <;> rfl
+    subst ho'
+    have hnm : isNonMemo o = false := by
+      cases o with
+      | val v => rfl
+      | exc c' m' =>
+        simp only [isNonMemo, beq_eq_false_iff_ne]
+        intro hc
+        exact hm m' (by rw [hc])
+    have hg : s1.get ⟨fn, arg, c⟩ = none := by rw [hf _ (hre rest ht)]; exact hn
+    have hs' : s'.get ⟨fn, arg, c⟩ = some (mkRec ⟨fn, arg, c⟩ o fr1) := by
+      rw [hs]; unfold storeAfter
+      simp [hnm, hg, St.get_put_self (hen.trans he)]
+    refine ⟨_, memoized_call_executes_nothing P n s' fn arg c {} _ hs', ?_⟩
+    simp only [serve, mkRec, Bool.false_and]
+    exact Outcome.sim_replay o
+
+/-- `NotReentrant` is not a restriction in the regime of `run_transparent`: for a well-behaved program without
+    prevented nested calls, on a sound store, a terminating call never re-enters its own key (a re-entrance would
+    give an infinite descent of fuels at which the un-memoized execution of the key terminates) -/
+theorem not_reentrant (P : Prog) (hw : WellBehaved P) (hp : NoPrevent P) (n : Nat) (s s' : St) (fn : Fn) (arg : Val)
+    (c : Ctx) (fl : Flags) (hfl : fl.prevent = false) (o : Outcome) (hs : Sound P s)
+    (h : callTop P n s fn arg (.set c) fl = some (s', o)) : NotReentrant s s' ⟨fn, arg, c⟩ :=
+  fun rest ht => not_reentrant_top hw hp hs hfl h rest ht
+
+/-- hence, in that regime, the original statements hold as they were written -/
+theorem recorded_iff_memoizable_sound (P : Prog) (hw : WellBehaved P) (hp : NoPrevent P) (n : Nat) (s s' : St) (fn : Fn)
+    (arg : Val) (c : Ctx) (fl : Flags) (hfl : fl.prevent = false) (o : Outcome) (hs : Sound P s)
+    (hn : s.get ⟨fn, arg, c⟩ = none) (h : callTop P n s fn arg (.set c) fl = some (s', o)) :
+    ((∃ m, o = .exc clsNonMemoized m) → s'.get ⟨fn, arg, c⟩ = none) ∧
+    ((∀ m, o ≠ .exc clsNonMemoized m) → (s'.get ⟨fn, arg, c⟩).isSome) :=
+  have hr := recorded_iff_memoizable P n s s' fn arg c fl o hs.1 hn h
+  ⟨fun hm => hr.1 hm (not_reentrant P hw hp n s s' fn arg c fl hfl o hs h), hr.2⟩
+
+theorem repeat_executes_nothing_sound (P : Prog) (hw : WellBehaved P) (hp : NoPrevent P) (n : Nat) (s s' : St) (fn : Fn)
+    (arg : Val) (c : Ctx) (o : Outcome) (hs : Sound P s) (h : callTop P n s fn arg (.set c) {} = some (s', o))
+    (hm : ∀ m, o ≠ .exc clsNonMemoized m) :
+    ∃ o2, callTop P (n + 1) s' fn arg (.set c) {} = some (s', o2) ∧ Outcome.sim o2 o :=
+  repeat_executes_nothing P n s s' fn arg c o hs.1 h hm (not_reentrant P hw hp n s s' fn arg c {} rfl o hs h)
+
+/-- the body of a call that was not memoized runs: its key is the first new entry of the execution trace -/
+theorem unmemoized_call_executes (P : Prog) (n : Nat) (s s' : St) (fn : Fn) (arg : Val) (c : Ctx) (fl : Flags) (o : Outcome)
+    (hn : s.get ⟨fn, arg, c⟩ = none) (h : callTop P n s fn arg (.set c) fl = some (s', o)) :
+    ∃ rest, s'.trace = s.trace ++ (⟨fn, arg, c⟩ :: rest) := by
+  obtain ⟨_, _, _, rest, _, _, ht, _, _⟩ := callTop_miss_spec (ctx := .set c) hn h
+  exact ⟨rest, ht⟩
+
+/-- "forgetting a call makes exactly that call run again": after `forget k` the key is absent (so by
+    `unmemoized_call_executes` it runs), every other entry is untouched -/
+theorem forget_exact (s : St) (k k' : Key) :
+    (forget s k).get k = none ∧ (k' ≠ k → (forget s k).get k' = s.get k') :=
+  ⟨forget_get_self s k, fun h => forget_get_ne s h⟩
+
+/-! counterexamples to the original `recorded_iff_memoizable` / `repeat_executes_nothing` (without `NotReentrant`):
+    `f(0)` calls `f(0)` under `with_prevent_further_calls(True)`; the inner execution's own nested call is
+    refused (RuntimeError), so it takes the other branch, returns `5` and is recorded; the outer execution
+    sees the value and raises the not-to-be-memoized exception (resp. returns `7`). -/
+private def reentrantBody (final : Outcome) : Body :=
+  .call 1 0 .inherit ⟨false, true⟩ (fun o => match o with
+    | .exc _ _ => .ret (.val (some 5))
+    | .val _ => .ret final)
+private def reentrantP : Prog := ⟨fun _ _ => reentrantBody (.exc clsNonMemoized 0), fun _ => true, fun _ _ => true⟩
+private def reentrantP' : Prog := ⟨fun _ _ => reentrantBody (.val (some 7)), fun _ => true, fun _ _ => true⟩
+
+example : (callTop reentrantP 3 { store := [], trace := [] } 1 0 (.set 0) {}).map
+      (fun x => (x.2, (x.1.get ⟨1, 0, 0⟩).map (·.out), x.1.trace)) =
+    some (.exc clsNonMemoized 0, some (.val (some 5)), [⟨1, 0, 0⟩, ⟨1, 0, 0⟩]) := by decide
+example : ((callTop reentrantP' 3 { store := [], trace := [] } 1 0 (.set 0) {}).bind
+      (fun x => (callTop reentrantP' 4 x.1 1 0 (.set 0) {}).map (fun y => (x.2, y.2)))) =
+    some (.val (some 7), .val (some 5)) := by decide
+
+/-! non-vacuity: f2 calls f1 twice (second one caught), f1 raises an opaque exception on odd arguments -/
+private def demoDefs : List (Fn × FnDef) :=
+  [(1, ⟨[], 2, 1, clsOpaque, 5, 10, false⟩),
+   (2, ⟨[.call 1 0 .inherit {} true (0, 0), .call 1 1 .inherit {} true (0, 0), .resource 7], 0, 0, 0, 0, 1, false⟩)]
+private def demoP : Prog := progOf demoDefs [(2, 1)]
+private def s0 : St := { store := [], trace := [] }
+
+example : (callTop demoP 5 s0 2 0 .inherit {}).map (·.2) = some (.val (some (-998))) := by decide
+example : ((callTop demoP 5 s0 2 0 .inherit {}).map (·.1.trace)) = some [⟨2, 0, 0⟩, ⟨1, 0, 0⟩, ⟨1, 1, 0⟩] := by decide
+example : pureCall demoP 5 2 0 .inherit {} = some (.val (some (-998))) := by decide
+/-! the hypotheses of `run_transparent` hold for it (as for every `progOf` program without prevent flags, from the empty store) -/
+example : WellBehaved demoP := wellBehaved_progOf _ _
+example : NoPrevent demoP := noPrevent_progOf _ _ (by decide)
+example : Sound demoP s0 := Sound.empty _ _
+
 end Memento.Runner
